@@ -140,14 +140,14 @@ def stepC12 (st : St) (op : String) (got : String) : StepResult St :=
             [⟨"decodes", String.singleton mk.kind ++ "-" ++ sigBase mk.signer,
               s!"a packet built through the API does not decode (reader {cuts})"⟩] else []) ++
           (if (got.splitOn " cov=ne").length > 1 then
-            [⟨"covered", String.singleton mk.kind ++ "-" ++ mk.signer,
+            [⟨"covered", String.singleton mk.kind ++ "-" ++ sigBase mk.signer,
               s!"the signed portion reported by the parser (cuts {cuts}) differs from the bytes handed to the signer"⟩] else []) ++
           (if hasVal ∧ !got.startsWith "a" ∧ got != "e" ∧ !isCrash got then
-            [⟨"accepts", String.singleton mk.kind ++ "-" ++ mk.signer,
+            [⟨"accepts", String.singleton mk.kind ++ "-" ++ sigBase mk.signer,
               s!"the untampered packet is not accepted by the matching validator (cuts {cuts}): {tk got 40}"⟩] else []) ++
           (match mk.handedCov with
            | some h => if mk.signed ∧ h ≠ Spec.signedPortion mk.w then
-               [⟨"covered-spec", String.singleton mk.kind ++ "-" ++ mk.signer,
+               [⟨"covered-spec", String.singleton mk.kind ++ "-" ++ sigBase mk.signer,
                  "the signer was handed bytes other than the signed portion the packet format prescribes"⟩] else []
            | none => [])
         { st := st, expected := some expected, spec := spec,
